@@ -302,7 +302,7 @@ _M_NAMES = ["x", "y", "x-v1", "env:a.b", "Ünï_1", "Snake", "Sudoku-very-easy"]
 _M_VERS = ["0", "1", "2", "7", "007", "01", "10", "٧", "00", "1", "3", "4", "5", "12345678901234567890123"]
 _M_BAD = ["x", "x-v", "-v1", "bad id-v1", "x-v1\n", "", "x/y-v0", "x-V1", "x-v²"]
 _M_KEYS = ["a", "b", "c"]
-_M_VALS = [0, 1, 2, "s", "t", None, [1, 2], {"k": 1}]
+_M_VALS = [0, 1, 2, "s", "t", None, [1, 2], {"k": 1}, {"k": 2}, {"j": 3}, {}, {"k": {"n": 1}}, {"k": {"m": 2}, "j": 0}]
 
 
 def _m_id():
